@@ -288,8 +288,9 @@ def tcheckRow : RowCarrier → List CqlTy → Option TcErr
   | .cols cs, ts => if cs.length ≠ ts.length then tcLeaf .wrongColumnCount else tcheckCols cs ts 0
 
 /-- `TypedRowIterator<R>` (`deserialize/result.rs:91-111`): it can only be obtained from `TypedRowIterator::new`,
-which is what `DeserializedMetadataAndRawRows::rows_iter`, `QueryRowsResult::rows` / `first_row` / `single_row`
-and the pager's typed stream go through. -/
+which is what `DeserializedMetadataAndRawRows::rows_iter` and, through it, `QueryRowsResult::rows` /
+`first_row` / `single_row` go through.  (The pager does NOT: `TypedRowStream` calls `RowT::type_check` itself,
+per page — see `typedStream` below.) -/
 structure TypedIter where
   rc : RowCarrier
   specs : List CqlTy
@@ -302,6 +303,65 @@ def typedIterNew (rc : RowCarrier) (specs : List CqlTy) (rows : Nat) : Except Tc
   match tcheckRow rc specs with
   | some e => .error e
   | none => .ok ⟨rc, specs, rows⟩
+
+/-! ### the pager's typed stream (`scylla/src/client/pager.rs`)
+
+`QueryPager::rows_stream::<T>()` → `TypedRowStream::new` type-checks `T` against the column specs of the page the
+pager currently holds (the FIRST page, fetched before the pager is handed out) and starts with
+`current_page_typechecked = true` (1275-1285).  `TypedRowStream::poll_next` (1313-1340): `QueryPager::next`
+reports `fresh_page = true` with the first row of every page fetched afterwards (`poll_fill_page` 751-769: a new
+non-empty page; zero-sized pages are swallowed without yielding anything); a fresh page resets the flag; an
+unset flag means `type_check` against THAT page's columns before the row is deserialized.  The pages' column
+specs may all differ (each page carries its own result metadata, or uses the statement's cached one). -/
+
+/-- One received page: its own column specs (names and types) and its number of rows. -/
+structure PageM where
+  specs : List (String × CqlTy)
+  rows : Nat
+  deriving Repr, Inhabited
+
+/-- What the typed stream hands to its consumer. -/
+inductive StreamOut where
+  | row (page : Nat)
+  | typeErr (page : Nat)
+  deriving Repr, DecidableEq, Inhabited
+
+/-- The body of `poll_next` for one row of a page whose columns pass (`ok`) or fail `T::type_check`:
+new flag, and whether the row became a type-check error. -/
+def streamRow (ok fresh flag : Bool) : Bool × Bool :=
+  let flag1 := if fresh then false else flag
+  if !flag1 then (if ok then (true, false) else (flag1, true)) else (true, false)
+
+/-- The rows of page `i`; `none` = the stream ended in an error. -/
+def pageRows (ok : Bool) (i : Nat) : Nat → Bool → Bool → List StreamOut × Option Bool
+  | 0, _, flag => ([], some flag)
+  | n + 1, fresh, flag =>
+    match streamRow ok fresh flag with
+    | (_, true) => ([.typeErr i], none)
+    | (flag', false) =>
+      match pageRows ok i n false flag' with
+      | (os, r) => (.row i :: os, r)
+
+/-- The pages fetched after the first one. -/
+def streamPages (check : List (String × CqlTy) → Bool) : Nat → List PageM → Bool → List StreamOut
+  | _, [], _ => []
+  | i, p :: ps, flag =>
+    if p.rows = 0 then streamPages check (i + 1) ps flag
+    else
+      match pageRows (check p.specs) i p.rows true flag with
+      | (os, none) => os
+      | (os, some flag') => os ++ streamPages check (i + 1) ps flag'
+
+/-- `rows_stream::<T>()` and the consumption of the whole stream (up to its first error); `none` = the
+constructor's own type-check error. -/
+def typedStream (check : List (String × CqlTy) → Bool) : List PageM → Option (List StreamOut)
+  | [] => some []
+  | p :: ps =>
+    if !check p.specs then none
+    else
+      match pageRows (check p.specs) 0 p.rows false true with
+      | (os, none) => some os
+      | (os, some flag) => some (os ++ streamPages check 1 ps flag)
 
 /-! ### values -/
 
